@@ -383,6 +383,9 @@ pub fn replay_engine_follow(cases: &[J]) -> J {
             (Some(x), Some(y)) => x.len() == y.len() && x.iter().zip(y.iter()).all(|((k1, v1), (k2, v2))| k1 == k2 && crate::val::json_eq(v1, v2)), _ => false });
         let mut ok = out.status.code() == Some(0);
         let mut why = String::new();
+        // C07: a statement whose LIMIT is complete ends there -- it does not go back to the file for a further line (which may never come)
+        let polled = stdout.contains("\u{1}R") || stdout.contains("\u{1}S") || String::from_utf8_lossy(&out.stderr).contains("UNSCHEDULED");
+        if case["bylimit"].as_bool() == Some(true) && exp_status == "ok" && polled { ok = false; why = "the executor waited for further input after its LIMIT was complete".into(); }
         if exp_status == "unk" { ok = ok && (ended_ok || ended_err); }
         else {
             if exp_status == "ok" && !ended_ok { ok = false; why = "executor did not end with Ok".into(); }
